@@ -382,6 +382,10 @@ var immutOnly, cutOnly, auxOnly bool
 // (C16) An argument list the runtime truncated: the rendering keeps the "..." marker whether or not
 // typed renderings are present.
 func auxAug(res *Result, dir string, idx int, cs interface{}) {
+	// a directory no earlier scan has looked at
+	dir = filepath.Join(dir, "aux")
+	_ = os.MkdirAll(dir, 0o755)
+	_ = os.WriteFile(filepath.Join(dir, "go.mod"), []byte("module example.com/aux\n\ngo 1.20\n"), 0o644)
 	src := "package main\n\n//go:noinline\nfunc callee(b []byte, p *int, q *int) {\n\tpanic(\"boom\")\n}\n\n//go:noinline\nfunc many(a, b, c, d, e, f, g, h, i, j, k int) {\n\tpanic(\"boom\")\n}\n"
 	_ = os.WriteFile(filepath.Join(dir, "main.go"), []byte(src), 0o644)
 	file := filepath.ToSlash(filepath.Join(dir, "main.go"))
@@ -449,6 +453,9 @@ func auxAug(res *Result, dir string, idx int, cs interface{}) {
 		}
 		if txt := c.Args.String(); !strings.HasSuffix(txt, "...") {
 			res.violation(Finding{Property: "C16", Aspect: "args-elided-marker", What: fmt.Sprintf("augment case %d: an argument list the runtime truncated is rendered as %q, without the marker (typed renderings present: %v)", idx, txt, len(c.Args.Processed) != 0), Case: cs, Input: []byte(dump)})
+			if len(c.Args.Processed) != 0 {
+				res.violation(Finding{Property: "C19", Aspect: "args-elided-marker", What: fmt.Sprintf("augment case %d: with typed renderings the truncated argument list reads %q: the rendering presents the list as complete, which is not what the program passed", idx, txt), Case: cs, Input: []byte(dump)})
+			}
 		}
 	}
 	res.count("aux_elided_checked", 1)
@@ -668,6 +675,7 @@ func checkAugCase(res *Result, ac *augCase, dir string, idx int, seed int64, rea
 			src, _ := genSource(dir, ps, recv, 0, gopts...)
 			src = strings.Replace(src, "type T struct{ x int }\n", "type T struct{ x int }; func decoy(s string, ok bool, f float64) {}\n", 1)
 			src = strings.Replace(src, "\nfunc ", "\nfnuc ", 1)
+			src += "\nvar after int\n\ntype After struct{}\n" // declarations the parser can resynchronise on
 			_ = os.WriteFile(filepath.Join(dir, "main.go"), []byte(src), 0o644)
 		case 9, 10:
 			// stale sources of another arity: scalars first, then interface types
